@@ -1,5 +1,6 @@
 //! vcore: log/codec/crypto level monitors (C06 C07 C08 C10 C14 C15).
 mod c08;
+mod logs;
 
 #[global_allocator]
 static ALLOC: vkit::alloc::Counting = vkit::alloc::Counting;
@@ -9,6 +10,8 @@ fn main() {
     let mut rep = vkit::Reporter::new(&prop_of(&args.check), args.out.clone());
     match args.check.as_str() {
         "c08" => c08::run(&args, &mut rep),
+        "c06" => logs::run(&args, &mut rep, "C06"),
+        "c07" => logs::run(&args, &mut rep, "C07"),
         other => {
             eprintln!("vcore: unknown check {}", other);
             std::process::exit(2);
